@@ -15,7 +15,9 @@ import DashLive.Driver.Util
 `csrf_seq <strict 0|1> <op;op;…>`, every string hex-encoded (`-` = empty string):
     `i:<service>:<cookie>:<origin>:<salt>:<sig>`  the implementation issued salt‖sig for these;
                                                    defines `mac` at that message; answers the token (hex)
-    `c:<service>:<cookie|none>:<origin>:<token>`  → accepted | noCookie | reuse | badSignature
+    `c:<service>:<cookie|none>:<origin>:<wire>`   the submitted text, still percent-encoded (any
+                                                   spelling); the model decodes it with `pctDecode`
+                                                   → accepted | noCookie | reuse | badSignature
     `p`                                            prune → pruned
   `mac` is the implementation's MAC on the messages of the `i` operations and the injective,
   never empty `'?' :: message` elsewhere. -/
@@ -108,7 +110,7 @@ def runOps (c : Cfg) : St → List Op → List String
   | _, [] => []
   | st, .issue svc ck o salt _ :: rest => showStr (issue c svc ck o salt) :: runOps c st rest
   | st, .check svc ck o tok :: rest =>
-    let (st', res) := check c st svc ck o tok
+    let (st', res) := checkWire c st svc ck o tok
     showResult res :: runOps c st' rest
   | st, .prune :: rest => "pruned" :: runOps c (prune st) rest
 
@@ -119,7 +121,7 @@ def csrfSeq : List String → Option String
     let table := ops.filterMap fun
       | .issue svc ck o salt sig => some (message strict ck svc o (salt.take saltLen), sig)
       | _ => none
-    let c : Cfg := { mac := macOf table, strictOrigin := strict }
+    let c : Cfg := { mac := macOf table, strictOrigin := strict, unquote := pctDecode }
     some (joinWith ";" (runOps c St.empty ops))
   | _ => none
 
